@@ -16,19 +16,20 @@ from ..core import Outcome, violation, H, B
 ID = "C04"
 RULE = ("Streams of 3..14 Ethernet frames: valid GN traffic (beacon, SHB with CAM / VAM, GBC with DENM, TSB, GUC to the station, LS request, "
         "all from two fixed sources; with security on: genuine secured CAM / DENM from real signing stations) interleaved with bad frames from "
-        "four generators: (i) random bytes 0..1500; (ii) grammar-based on the GN layout with illegal values (version, NH 3..15, HT 7..15, HST "
+        "five generators: (i) random bytes 0..1500; (ii) grammar-based on the GN layout with illegal values (version, NH 3..15, HT 7..15, HST "
         "out of enum, station type 13..31, RHL > MHL, zero-sized areas, truncation at every header boundary +-1, PL != actual); (iii) "
         "mutations (bit flips, truncations, splices) of valid unsecured and secured packets from other sources (unparsable envelopes, "
         "unsupported hashId / signature choices, certificate lists of length 0/2/3); (iv) well-formed GN+BTP to ports 2001/2002/2018 with "
-        "undecodable or odd facility payloads; plus Ethernet framing cases (own MAC as source, other unicast destination). The stream runs "
-        "through the real RawLinkLayer.receive() thread on a scripted socket. Oracle: (1) the loop consumes every scripted frame and ends only "
-        "through the scripted OSError, no exception escapes; (2) differential against a twin station fed only the valid frames: identical "
+        "undecodable or odd facility payloads; (v) 'shadow' frames: certainly malformed variants (version, RHL > MHL, zero area, truncated header, reserved HT/HST) of a "
+        "sequence-numbered frame that a VALID source sends later in the stream; plus Ethernet framing cases (own MAC as source, other unicast destination). The stream runs "
+        "through the real RawLinkLayer.receive() thread on a scripted socket or (1 case in 4) the real PythonCV2XLinkLayer.callback_handler_loop on a scripted queue. Oracle: (1) the loop consumes every scripted frame and ends only "
+        "through the scripted OSError (raw) / stop signal (C-V2X), no exception escapes; (2) differential against a twin station fed only the valid frames: identical "
         "facility handler invocations, location-table entries of the valid sources, LDM objects and trust store; (3) own-MAC-source / "
         "foreign-unicast frames cause no router call. Non-trivial = bad frame that reaches at least the common-header decoder and is followed "
         "by a valid frame.")
 ASSUMPTIONS = [
-    "bad frames carry source addresses disjoint from the valid sources (a mutated packet that still is a valid packet of a valid source would legitimately change state)",
-    "the C-V2X link layer's vendor library does not load in this sandbox: its callback loop has the same structure and is covered by reading only",
+    "bad frames carry source addresses disjoint from the valid sources (a mutated packet that still is a valid packet of a valid source would legitimately change state) - except the 'shadow' generator, whose frames claim a valid source and the sequence number of a frame that source sends later, and are malformed in a way that obliges every receiver to discard them (version, RHL > MHL, zero-sized area, truncated header, reserved HT / HST)",
+    "the C-V2X link layer's vendor library does not load in this sandbox: the real PythonCV2XLinkLayer.callback_handler_loop is run on an instance created without __init__ (no vendor process) and a scripted queue; receive_process (the vendor side of the queue) is not exercised",
     "forwarding output is not compared (a GN-valid packet with a bad facility payload legitimately creates a neighbour entry)",
 ]
 
@@ -133,6 +134,35 @@ def valid_frame(spec, now, secured_pool=None):
     if k == "lsreq":
         return rc.build_packet("lsreq", so=so, sn=spec["n"] + 100 * s + 90, rhl=2, mhl=2, req_addr=addr_bytes(b"\x02\x00\x00\x00\x12\x34"))
     raise ValueError(k)
+
+
+SHADOW_WHATS = ["version", "rhl_gt_mhl", "zero_area", "trunc", "ht", "hst"]
+
+
+def shadow_frame(valid_pkt, what, x):
+    """A certainly malformed variant of a frame that a VALID source sends later in the stream: same source, same sequence
+    number.  A receiver has to discard it without recording anything, so that the genuine frame is still accepted."""
+    pkt = bytearray(valid_pkt)
+    ht = pkt[5] >> 4
+    if what == "zero_area" and ht not in (rc.HT_GBC, rc.HT_GAC):
+        what = "rhl_gt_mhl"
+    if what == "version":
+        v = x % 16
+        pkt[0] = ((2 if v == 1 else v) << 4) | (pkt[0] & 15)
+    elif what == "rhl_gt_mhl":
+        pkt[3] = min(255, pkt[10] + 1 + x % 50)
+    elif what == "zero_area":
+        pkt[48:50] = b"\x00\x00"                       # distance a
+        if x % 2:
+            pkt[50:52] = b"\x00\x00"                   # distance b
+    elif what == "trunc":
+        ext = rc.ext_len(ht, pkt[5] & 15) or 4
+        return bytes(pkt[:12 + x % ext]) if x % 5 else bytes(pkt[:x % 12])
+    elif what == "ht":
+        pkt[5] = ((7 + x % 9) << 4) | (pkt[5] & 15)
+    elif what == "hst":
+        pkt[5] = (pkt[5] & 0xF0) | (3 + x % 13)
+    return bytes(pkt)
 
 
 def bad_frame(spec, now, secured_pool):
@@ -281,6 +311,7 @@ def bad_s():
                                "kind": st.sampled_from(["beacon", "shb", "tsb", "gbc", "gac", "guc", "lsreq", "lsrep"]), "x": x}),
         st.fixed_dictionaries({"gen": st.just("grammar"), "what": st.sampled_from(["version", "basic_nh", "basic_nh_any", "common_nh", "ht", "ht_any", "hst", "st", "rhl_gt_mhl", "zero_area", "pl", "trunc", "reserved"]),
                                "kind": st.sampled_from(["beacon", "shb", "tsb", "gbc", "gac", "guc", "lsreq", "lsrep"]), "x": x}),
+        st.fixed_dictionaries({"gen": st.just("shadow"), "what": st.sampled_from(SHADOW_WHATS), "x": x}),
         st.fixed_dictionaries({"gen": st.just("mutate"), "secured": st.booleans(), "m": st.sampled_from(["bitflip", "bitflip", "trunc", "splice", "extend"]), "pos": pos, "x": x}),
         st.fixed_dictionaries({"gen": st.just("envelope"), "what": st.sampled_from(["sha384", "chain0", "chain2", "chain3", "self_signer", "brainpool_sig", "compressed_r", "digest_unknown", "encrypted", "garbage", "plain"]),
                                "bytes": small_bytes}),
@@ -297,12 +328,53 @@ def item_s():
 
 def case_s():
     return st.fixed_dictionaries({"security": st.sampled_from([False, False, True]), "ldm": st.booleans(),
+                                  "loop": st.sampled_from(["raw", "raw", "raw", "cv2x"]),
                                   "stream": st.lists(item_s(), min_size=3, max_size=14)})
+
+
+# ---- the C-V2X link layer's callback loop on a scripted queue ------------------------------------------
+class ScriptedQueue:
+    """Stands in for the multiprocessing.Queue between the vendor receive process and callback_handler_loop."""
+
+    def __init__(self, packets, gate):
+        self.packets = list(packets)
+        self.i = 0
+        self.gate = gate
+
+    def get(self):
+        self.gate.wait()
+        if self.i >= len(self.packets):
+            return None                     # the stop signal PythonCV2XLinkLayer.stop() sends
+        p = self.packets[self.i]
+        self.i += 1
+        return p
+
+
+def cv2x_module():
+    """flexstack.linklayer.cv2x_link_layer with the vendor binding (which cannot be loaded here) replaced by a stub module."""
+    import importlib
+    import sys
+    name = "flexstack.linklayer.cv2xlinklayer"
+    if name not in sys.modules:
+        m = types.ModuleType(name)
+
+        class CV2XLinkLayer:
+            def __init__(self):
+                self.sent = []
+
+            def send(self, data):
+                self.sent.append(bytes(data))
+
+            def receive(self):
+                return b""
+        m.CV2XLinkLayer = CV2XLinkLayer
+        sys.modules[name] = m
+    return importlib.import_module("flexstack.linklayer.cv2x_link_layer")
 
 
 # ---- the station under test --------------------------------------------------------------------------
 class FullStation:
-    def __init__(self, clock, security, with_ldm, frames):
+    def __init__(self, clock, security, with_ldm, frames, loop="raw"):
         from flexstack.btp.router import Router as BTPRouter
         from flexstack.geonet import router as grm
         from flexstack.geonet.mib import MIB, AreaForwardingAlgorithm, GnSecurity
@@ -350,6 +422,17 @@ class FullStation:
             self.router_calls += 1
             return orig(pkt)
         self.gate = threading.Event()
+        if loop == "cv2x":
+            # the real callback_handler_loop of the C-V2X link layer, on an instance built without the vendor process / queue
+            cll = cv2x_module()
+            self.sock = ScriptedQueue([f[14:] for f in frames], self.gate)
+            self.ll = object.__new__(cll.PythonCV2XLinkLayer)
+            self.ll.receive_callback = counted
+            self.ll.link_layer = cll.CV2XLinkLayer()
+            self.ll.receiving_thread = threading.Thread(target=self.ll.callback_handler_loop, args=(self.sock,), daemon=True)
+            self.ll.receiving_thread.start()
+            self.gn.link_layer = self.ll
+            return
         self.sock = ScriptedSocket(frames, self.gate)
         self._saved_socket = rll.socket
         rll.socket = socket_shim(self.sock)
@@ -448,7 +531,10 @@ def run_case(case):
         frames_all, frames_valid = [], []
         meta = []
         used = {}
+        loop = case.get("loop", "raw")
         for i, it in enumerate(case["stream"]):
+            if it["t"] == "framing" and loop == "cv2x":
+                continue                    # no Ethernet framing (and no MAC filter) on the C-V2X path
             if it["t"] == "valid":
                 if sec:
                     kind = it["kind"] if it["kind"] in ("cam", "denm") else "cam"
@@ -464,6 +550,15 @@ def run_case(case):
                 frames_all.append(f)
                 frames_valid.append(f)
                 meta.append("valid")
+            elif it["t"] == "bad" and it["spec"]["gen"] == "shadow":
+                # malformed twin of the next sequence-numbered frame of a valid source (unsecured streams)
+                nxt = next(((j, v) for j, v in enumerate(case["stream"]) if j > i and v["t"] == "valid" and v["kind"] in ("denm", "tsb", "guc", "lsreq")), None)
+                if sec or nxt is None:
+                    continue
+                j, v = nxt
+                pkt = shadow_frame(valid_frame({"kind": v["kind"], "src": v["src"], "n": j}, clock.now), it["spec"]["what"], it["spec"]["x"])
+                frames_all.append(eth(pkt, VSRC[v["src"]]))
+                meta.append("bad:shadow:" + it["spec"]["what"])
             elif it["t"] == "bad":
                 try:
                     pkt = bad_frame(it["spec"], clock.now, pool["mut"])
@@ -486,9 +581,9 @@ def run_case(case):
         for m in meta:
             if m.startswith("bad"):
                 labels.add(m)
-        x = FullStation(clock, sec, case["ldm"], frames_valid)
+        x = FullStation(clock, sec, case["ldm"], frames_valid, loop)
         okx = x.run()
-        y = FullStation(clock, sec, case["ldm"], frames_all)
+        y = FullStation(clock, sec, case["ldm"], frames_all, loop)
         oky = y.run()
         if died:
             vs.append(violation(ID, "C04/receive-thread-died:%s" % died[0][0], "the receiving thread terminated with %s: %s (stream %r)" % (died[0][0], died[0][1], meta)))
@@ -508,7 +603,7 @@ def run_case(case):
         nt = n_bad > 0 and any(m == "valid" for m in meta[last_bad + 1:]) or (n_bad > 0 and any(m == "valid" for m in meta))
         if sx["calls"]:
             labels.add("valid-deliveries")
-        return Outcome(vs, labels=sorted(labels) + ["security:%s" % sec], nontrivial=bool(nt and reached))
+        return Outcome(vs, labels=sorted(labels) + ["security:%s" % sec, "loop:%s" % loop], nontrivial=bool(nt and reached))
     finally:
         threading.excepthook = old_hook
         clock.uninstall()
@@ -518,10 +613,74 @@ def job(n, seed):
     return core.hyp_run(case_s(), run_case, n=n, seed=seed, kind="stream")
 
 
+def _fuzz_outcome(data):
+    from .. import fuzz_c04
+    vs, labels, nt, excl = fuzz_c04.fuzz_one(data)
+    return Outcome([violation(ID, sig, msg) for sig, msg in vs], labels=["fuzz:" + l for l in labels], nontrivial=nt, excluded=excl)
+
+
+FUZZ_SEEDS = [bytes([0, 1, 0, 40]) + bytes(range(40)), bytes([0, 0, 1, 2, 0, 20, 4, 1, 2, 3, 4, 1]), bytes([1, 2, 2, 4, 0, 2, 60]) + bytes(60) + bytes([0, 3]),
+              bytes([0, 0, 3, 0, 2, 0, 7]), bytes([0, 1, 3, 1, 0, 0, 9]), bytes([0, 2, 4, 0, 30]) + bytes(range(30)) + bytes([1, 0, 9]), bytes([2, 3, 3, 0, 3, 0, 1, 3, 1, 4, 0, 5, 1, 1, 8, 1, 1, 1, 1, 1, 1, 1, 1, 0])]
+
+
+def job_fuzz(idx, seed, runs):
+    """One libFuzzer (atheris) campaign over the flexstack package; see vf/fuzz_c04.py.  Even idx: empty corpus, odd: seeded."""
+    import json
+    import os
+    import shutil
+    import subprocess
+    import sys
+    from ..core import Partial
+    part = Partial()
+    work = os.path.join(core.HOME, ".work", "c04-fuzz", "%d-%d" % (seed, idx))
+    shutil.rmtree(work, ignore_errors=True)
+    os.makedirs(os.path.join(work, "corpus"))
+    if idx % 2:
+        for i, sd in enumerate(FUZZ_SEEDS):
+            with open(os.path.join(work, "corpus", "seed%d" % i), "wb") as fh:
+                fh.write(sd)
+    env = dict(os.environ, VF_FUZZ_OUT=os.path.join(work, "out"))
+    cmd = [sys.executable, "-m", "vf.fuzz_c04", "-runs=%d" % runs, "-seed=%d" % (seed * 100 + idx + 1), "-max_len=600", "-len_control=0", "-print_final_stats=0",
+           "-verbosity=0", os.path.join(work, "corpus")]
+    r = subprocess.run(cmd, env=env, stdout=subprocess.DEVNULL, stderr=subprocess.PIPE, cwd=core.HOME)
+    try:
+        stats = json.load(open(os.path.join(work, "out", "stats.json")))
+    except Exception as e:
+        part.errors.append("fuzz campaign %d produced no statistics (exit %d): %r %s" % (idx, r.returncode, e, r.stderr.decode(errors="replace")[-600:]))
+        return part
+    if r.returncode != 0:
+        part.errors.append("fuzz campaign %d exited with %d: %s" % (idx, r.returncode, r.stderr.decode(errors="replace")[-600:]))
+    part.evaluations += stats["runs"]
+    part.nontrivial_extra += stats["nontrivial"]
+    for k_, v in stats["labels"].items():
+        part.labels["fuzz:" + k_] += v
+    for k_, v in stats["excluded"].items():
+        part.excluded[k_] += v
+    corpus = sorted(os.listdir(os.path.join(work, "corpus")))
+    part.subcount("atheris-campaign", campaigns=1, runs=stats["runs"], corpus_entries=len(corpus), seeded_corpus=idx % 2)
+    for name in corpus[:2]:
+        part.samples.append({"kind": "fuzz", "nontrivial": True, "case": {"data": open(os.path.join(work, "corpus", name), "rb").read().hex()[:400]}})
+    vpath = os.path.join(work, "out", "violations.jsonl")
+    if os.path.exists(vpath):
+        for line in open(vpath):
+            v = json.loads(line)
+            vv = violation(ID, v["signature"], v["message"], case={"data": v["data"]}, kind="fuzz")
+            part.add_violation(vv)
+    shutil.rmtree(work, ignore_errors=True)
+    return part
+
+
 def jobs(tier, seed):
     k = 1 if tier == "quick" else 40
-    return [{"fn": "vf.props.c04:job", "args": {"n": 120 * k, "seed": seed * 1000 + s}} for s in range(16)]
+    js = [{"fn": "vf.props.c04:job", "args": {"n": 120 * k, "seed": seed * 1000 + s}} for s in range(16)]
+    if tier == "quick":
+        js += [{"fn": "vf.props.c04:job_fuzz", "args": {"idx": i, "seed": seed, "runs": 1500}} for i in range(2)]
+    else:
+        js += [{"fn": "vf.props.c04:job_fuzz", "args": {"idx": i, "seed": seed, "runs": 60000}} for i in range(16)]
+    return js
 
 
 def replay(kind, case):
+    if kind == "fuzz":
+        return _fuzz_outcome(B(case["data"]))
     return run_case(case)
